@@ -407,7 +407,7 @@ var (
 	ErrIncorrectSourceBytes = errors.New("incorrect source bytes")
 	ErrNotEnoughSourceBytes = errors.New("not enough source bytes")
 
-	MessageAuthUsernameRegexp = regexp.MustCompile("^[0-9A-Za-z](?:[-#.0-9@A-Z_a-z]+[0-9A-Za-z])?$")
+	MessageAuthUsernameRegexp = regexp.MustCompile("^[0-9A-Za-z](?:[-#.0-9@A-Z_a-z]*[0-9A-Za-z])?$")
 )
 
 const (
